@@ -42,9 +42,10 @@ theorem log_pf_partial (HR : PF.ExpHalfRecipInv) (x b : TwoFloat) (hx : x.Inv) (
 theorem log10_pf_partial (HR : PF.ExpHalfRecipInv) (x : TwoFloat) (hi : x.Inv) (hw : x.WF) :
     TwoFloat.log10.pf x = true := PF.log10_pf HR x ⟨hi, hw⟩
 
-/-- `ln_1p`: two calls of `exp_m1`, the second on `x₀ - (e - self)/(e + 1)`.  PARTIAL: the quotient
-(`TwoFloat / TwoFloat`, invariant open in C01) is assumed to satisfy the invariant. -/
-theorem ln_1p_pf_partial (x : TwoFloat) (hw : x.WF)
+/-- `ln_1p`: for `−1 < x ≤ −0.5` the call `(1.0 + x).ln()` (panic-free on every argument satisfying the invariant:
+`f64 + TwoFloat` preserves it, C01); otherwise two calls of `exp_m1`, the second on `x₀ - (e - self)/(e + 1)`.
+PARTIAL: the quotient (`TwoFloat / TwoFloat`, invariant open in C01) is assumed to satisfy the invariant. -/
+theorem ln_1p_pf_partial (x : TwoFloat) (hi : x.Inv) (hw : x.WF)
     (hq : let x0 := convert.impl_From_f64_for_TwoFloat.from (Libm.log1p x.hi)
           let e := TwoFloat.exp_m1 x0
           (arithmetic.impl_Div_TwoFloat_for_TwoFloat.div (arithmetic.impl_Sub_TwoFloat_for_TwoFloat.sub e x)
@@ -54,6 +55,7 @@ theorem ln_1p_pf_partial (x : TwoFloat) (hw : x.WF)
   split_ifs
   · rfl
   · rfl
+  · exact PF.ln_pf C14p.expHalfRecipInv _ (C01.add_f64_tf_inv (f64lit 0x3ff0000000000000) hw PF.lit_one_WF hi)
   · dsimp only at hq ⊢
     have h0 : PF.Good (convert.impl_From_f64_for_TwoFloat.from (Libm.log1p x.hi)) :=
       PF.good_from (PF.libm_log1p_WF hw.1)
